@@ -81,10 +81,10 @@ Definition request_wf (q : req_head) : bool :=
   | _, _ => true
   end.
 
-Record resp_head := { p_status : N; p_fields : fieldl }.
+Record resp_head := { rp_status : N; rp_fields : fieldl }.
 Record resp_seen := { w_status : N; w_fields : hgroups }.
 Definition norm_response (p : resp_head) : resp_seen :=
-  {| w_status := p_status p; w_fields := group_fields (p_fields p) |}.
+  {| w_status := rp_status p; w_fields := group_fields (rp_fields p) |}.
 
 Definition norm_trailers (t : fieldl) : hgroups := group_fields t.
 
@@ -94,9 +94,9 @@ Definition expected_events {H H' T T'} (norm_h : H -> H') (norm_t : T -> T') (m 
   AHead (norm_h (m_head m)) :: flush_body (concat (m_pieces m)) ++ ABodyEnd ::
   match m_trailers m with Some t => [ATrailers (norm_t t)] | None => [] end ++ [AEnd].
 
-(* RFC 9114 4.2.2: the size of a field section is the sum over its field lines of name length + value length + 32 *)
-Definition section_size (fs : fieldl) : N :=
-  fold_right (fun f acc => len (fst f) + len (snd f) + 32 + acc) 0 fs.
-(* field sections the theorems speak about: below 2^60 bytes by that measure (so that the encoded block fits the
-   62-bit length field of its HEADERS frame with any reasonable codec) *)
-Definition section_fits (fs : fieldl) : Prop := section_size fs < 2 ^ 60.
+(* RFC 9114 4.2.2: the size of a field section is the sum over its field lines of name length + value length + 32:
+   Spec/FieldSize.v [section_size].  Field sections the theorems speak about are below 2^26 bytes (64 MiB) by that
+   measure: h3 cannot read back Huffman strings of 2^29 bytes or more (C11), and the encoded block must fit the 62-bit
+   length field of its HEADERS frame. *)
+From H3V Require Export Spec.FieldSize.
+Definition section_fits (fs : fieldl) : Prop := section_size fs < 2 ^ 26.
